@@ -6,10 +6,14 @@ symbolic species is fed to the reader and the species it builds are compared
 attribute by attribute with the originals, for every enumerated combination
 of field widths.
 
-Where the reader takes a decision that depends on how the user spelled a text
-(a value-dependent test met on a record line), the instance is repeated with
-concrete spellings that make the test come out the other way: both outcomes
-must give back the species that were written.
+Where the reader or the writer takes a decision that depends on how the user
+spelled a text (a value-dependent test met on a record line / on a species),
+the instance is repeated with concrete spellings that make the test come out
+the other way: both outcomes must give back the species that were written.
+What the symbolic run cannot vary - which character a name begins with, which
+letter the phase is, how an element symbol is capitalised, how many decimals a
+temperature has, the sign and magnitude of a coefficient - is enumerated with
+species that are spelled out completely.
 """
 import ast
 import itertools
@@ -614,12 +618,18 @@ def check(run, repo):
         'comparisons of a count decided with a value inside its digit class and with the smallest and largest one -, '
         'temperatures of 3-6 characters, 1-3 species, list and dict input, list/tuple/dict output) the writer\'s '
         'abstract output is checked against the Chemkin column layout and fed to the reader; the species it builds '
-        'must equal the originals attribute by attribute and in order. Concrete names (out of alphabetical order; '
-        'with END, THERMO, a leading digit, \'!\' inside), comment blocks that contain the keywords, and one file name '
-        'written and read twice by the same program are further instances. Operations that cut through a field, '
-        'conversions of text that is not exactly one number are reported; a test on a record line whose outcome '
-        'depends on user-controlled text is decided both ways (the text spelled out so that the test holds) and '
-        'both must give back the species written.')
+        'must equal the originals attribute by attribute and in order. Concrete names (out of alphabetical order, with '
+        'surface and gas phases not grouped; with END, THERMO, a leading digit, \'!\' inside), species spelled out '
+        'completely (a name beginning with each printable character that is not a letter or digit - thorough: each '
+        'printable character -, every single-character phase, element symbols in upper, lower and mixed case, '
+        'temperatures of 1 K, 9999.9 K and with more decimals than are printed such as 1000/3 K, compared to 0.1 K, '
+        'coefficients of 1e-30..1e30, zero, of one sign only, compared to nine significant digits), comment blocks '
+        'that contain the keywords, and one file name written and read twice by the same program are further '
+        'instances. Operations that cut through a field, conversions of text that is not exactly one number are '
+        'reported; a test of the reader on a record line or of the writer on a species whose outcome depends on '
+        'user-controlled text (name, notes, phase, element symbol) is decided both ways (the text spelled out so '
+        'that the test holds, in a single species and in one of several) and both must give back the species '
+        'written, in the order written.')
     run.assumptions = ['E-format numbers with |exponent| < 100 have a value-independent width (coefficients of '
                        'magnitude 1e-30..1e30)', 'user text fields contain no blanks (property: non-blank characters)',
                        'no name begins with \'!\' (column 1 \'!\' is the comment marker of the file format)']
